@@ -170,7 +170,14 @@ def model_flow(prop, tier, replay, *, spec, mods, trace, mc, gens, mutators, ext
         tdrive += time.time() - t
         bad = [r for r in res if r["status"] != "ok"]
         okres = [r for r in res if r["status"] == "ok"]
-        tv = sample(okres, tv_quick, 99) if quick else okres
+        if quick:
+            # behaviours that carry no expected outputs (hand-written extras) are judged by the trace specification
+            # alone: they are always validated; the others are sampled
+            must = [r for r in okres if not any("out" in st for st in byid[r["id"]]["steps"])]
+            mids = set(r["id"] for r in must)
+            tv = must + sample([r for r in okres if r["id"] not in mids], tv_quick, 99)
+        else:
+            tv = okres
         t = time.time()
         acc, rej = vlib.tlc_validate(work, trace[0], trace[1], tv, timeout=3000)
         tval += time.time() - t
